@@ -1,0 +1,13 @@
+//go:build !verif
+
+// Package verif holds the hook points used by the external verification
+// harness. Without the "verif" build tag every function is empty.
+package verif
+
+func On() bool                             { return false }
+func Spawn()                               {}
+func Begin(kind, key string)               {}
+func End()                                 {}
+func Await(label string, cond func() bool) {}
+func Yield(label string)                   {}
+func Obs(format string, a ...any)          {}
